@@ -30,6 +30,13 @@ def scene_xml(name, c):
       s = f'<body pos="0 0 -0.2"><joint type="hinge" axis="0 1 0" limited="true" range="-30 30"/><geom type="capsule" fromto="0 0 0 0 0 -0.2" size="0.03"/>{s}</body>'
     s = s.replace('pos="0 0 -0.2"', 'pos="0 0 1.0"', 1)
     return f'<mujoco><option {opt}>{flags}</option><worldbody><geom type="plane" size="5 5 .1"/>{s}<body pos="0.5 0 0.2"><freejoint/><geom size="0.1"/></body></worldbody></mujoco>'
+  if name == "mixed":
+    # contacts whose rows have very different numbers of non-zeros: a 1-dof ball pressed on the floor first, a free box in contact after it,
+    # a free capsule in the air (so that the row budget per contact is sized for the widest pair and a narrow block finds room beyond njmax)
+    return (f'<mujoco><option {opt}>{flags}</option><worldbody><geom type="plane" size="5 5 .1"/>'
+            '<body pos="0 0 0.095"><joint type="slide" axis="0 0 1"/><geom type="sphere" size="0.1"/></body>'
+            '<body pos="1 0 0.099"><freejoint/><geom type="box" size="0.1 0.1 0.1"/></body>'
+            '<body pos="2 0 0.6"><freejoint/><geom type="capsule" size="0.05 0.1"/></body></worldbody></mujoco>')
   raise AssertionError(name)
 
 
@@ -47,7 +54,7 @@ mjm = mujoco.MjModel.from_xml_string(xml)
 # what the scene needs (ample run), computed with MuJoCo C
 mjd = mujoco.MjData(mjm); mujoco.mj_forward(mjm, mjd)
 need_con, need_efc = max(1, mjd.ncon), max(1, mjd.nefc)
-cap = lambda cls, need: {"neg": -1, "zero": 0, "one": 1, "exact": need, "ample": 8 * need + 16}[cls]
+cap = lambda cls, need: {"neg": -1, "zero": 0, "one": 1, "short1": max(need - 1, 1), "short2": max(need - 2, 1), "half": max(need // 2, 1), "exact": need, "ample": 8 * need + 16}[cls]
 kw = {}
 if c["nvmax"] != "default":
   kw["nvmax"] = {"neg": -1, "zero": 0, "one": 1, "nv": mjm.nv, "toolarge": mjm.nv + 1}[c["nvmax"]]
@@ -91,7 +98,7 @@ def _run_one(item):
 
 
 def gen(n):
-  mod = 'EXTENDS Accept\nGScenes == {"rows", "stack", "chain"}\n'
+  mod = 'EXTENDS Accept\nGScenes == {"rows", "stack", "chain", "mixed"}\n'
   mod = "---- MODULE Gen_Accept ----\n" + mod + "====\n"
   cfg = f"""CONSTANTS
   Scenes <- GScenes
